@@ -134,7 +134,7 @@ func (g *Gen) skolemizeGoal(goal string) string {
 						m[b.kids[0].atom] = g.newConst("sk!"+sanitize(b.kids[0].atom), b.kids[1].String())
 					}
 				}
-				return walk(substSx(n.kids[2], m), true)
+				return walk(stripBang(substSx(n.kids[2], m)), true)
 			}
 			return n
 		case "exists":
@@ -145,7 +145,7 @@ func (g *Gen) skolemizeGoal(goal string) string {
 						m[b.kids[0].atom] = g.newConst("sk!"+sanitize(b.kids[0].atom), b.kids[1].String())
 					}
 				}
-				return walk(substSx(n.kids[2], m), false)
+				return walk(stripBang(substSx(n.kids[2], m)), false)
 			}
 			return n
 		case "and", "or":
@@ -184,4 +184,12 @@ func (g *Gen) skolemizeGoal(goal string) string {
 	}
 	_ = fmt.Sprint
 	return r.String()
+}
+
+// stripBang drops a pattern annotation `(! body :pattern ...)` that is no longer under a quantifier.
+func stripBang(n *sx) *sx {
+	if n != nil && n.head() == "!" && len(n.kids) >= 2 {
+		return n.kids[1]
+	}
+	return n
 }
